@@ -100,6 +100,7 @@ def main():
             print(f"{ms[0]['name']} {pid}: rc={rc} violations={nv}")
     elif a.cmd == "all":
         bad = 0
+        rows = []
         started = not a.start
         for m in load():
             if not started:
@@ -120,9 +121,16 @@ def main():
                 if rc != 1:
                     bad += 1
                 print(f"{status:14s} {pid} {m['name']}")
+                rows.append((m["name"], pid, status, (m.get("file") or m.get("patch") or "")))
                 if a.v and rc != 1:
                     print(tail)
             sys.stdout.flush()
+        if not a.only and not a.start:
+            with open(os.path.join(HERE, "tools", "MUTANTS.md"), "w") as f:
+                f.write("# Sensitivity mutants (tools/mutants.json) against the checks they are aimed at\n\n")
+                f.write(f"tier: {a.tier}; regenerate with `python3 tools/mut.py all`\n\n| mutant | check | result | file |\n|---|---|---|---|\n")
+                for r in rows:
+                    f.write("| " + " | ".join(r) + " |\n")
         sys.exit(1 if bad else 0)
 
 
